@@ -15,8 +15,11 @@
 (*                order: no clause absorbs the words of the clause that follows it.             *)
 (* Where the documented grammar itself cannot tell two readings apart (a source without a       *)
 (* `fields in` part directly followed by an `in` clause; an optional trailing name directly     *)
-(* followed by a connective that is not a reserved word) the argument words below avoid the     *)
-(* ambiguity; this is the stated side condition of the check.                                   *)
+(* followed by a connective that is not a reserved word, which only framer has: `first`) the    *)
+(* argument words below avoid the ambiguity; this is the stated side condition of the check.    *)
+(* Relations with the optional name left out (`of actor`, `of frame`, `of framer`) and `of me`   *)
+(* are among the wordings of every clause that takes an indirect address in do, frame and aux,  *)
+(* whose connectives are all reserved words: there the documented reading is unambiguous.       *)
 (* The harness prints every terminal state as a command inside a minimal script, builds it with *)
 (* the real Builder and compares the projected structure with rec (vf/families/clauses.py).     *)
 EXTENDS Integers, Sequences, FiniteSets, TLC, Json
@@ -54,17 +57,23 @@ Table ==
       via   |-> C("via", "indirect", 0, <<V(<<".nd.ft">>), V(<<"nd.rel", "of", "framer", "ft">>)>>)],
    frame |->
      [in    |-> C("in", "fixed", 1, <<V(<<"fa">>)>>),
-      via   |-> C("via", "indirect", 0, <<V(<<".nd.fb">>), V(<<"nd.rel", "of", "me">>)>>)],
+      via   |-> C("via", "indirect", 0, <<V(<<".nd.fb">>), V(<<"nd.rel", "of", "me">>), V(<<"nd.rel", "of", "frame">>),
+                                          V(<<"nd.rel", "of", "framer">>)>>)],
    do |->
      [as    |-> C("as", "parts", 0, <<V(<<"nm", "part">>)>>),
       at    |-> C("at", "fixed", 1, <<V(<<"enter">>), Bad(<<"nowhen">>)>>),
-      via   |-> C("via", "indirect", 0, <<V(<<".nd.do">>), V(<<"nd.rel", "of", "me">>)>>),
+      via   |-> C("via", "indirect", 0, <<V(<<".nd.do">>), V(<<"nd.rel", "of", "me">>), V(<<"nd.rel", "of", "actor">>),
+                                          V(<<"nd.rel", "of", "frame">>), V(<<"nd.rel", "of", "framer">>),
+                                          V(<<"nd.rel", "of", "actor", "of", "frame">>)>>),
       with  |-> C("with", "data", 0, <<V(<<"wa", "1", "wb", "\"two\"">>), V(<<"7">>)>>),
-      from  |-> C("from", "source", 0, <<V(<<"fa1", "in", ".src.from">>), V(<<".src.from">>)>>),
+      from  |-> C("from", "source", 0, <<V(<<"fa1", "in", ".src.from">>), V(<<".src.from">>), V(<<"src.rf", "of", "actor">>),
+                                         V(<<"fa1", "in", "src.rf", "of", "frame">>)>>),
       per   |-> C("per", "data", 0, <<V(<<"pa", ".io.pa">>)>>),
-      for   |-> C("for", "source", 0, <<V(<<"fo", "in", ".src.for">>), V(<<".src.for">>)>>),
+      for   |-> C("for", "source", 0, <<V(<<"fo", "in", ".src.for">>), V(<<".src.for">>), V(<<"src.ro", "of", "framer">>),
+                                       V(<<"fo", "in", "src.ro", "of", "actor">>)>>),
       cum   |-> C("cum", "data", 0, <<V(<<"ca", "3">>)>>),
-      qua   |-> C("qua", "source", 0, <<V(<<"qa", "in", ".src.qua">>), V(<<".src.qua">>)>>)],
+      qua   |-> C("qua", "source", 0, <<V(<<"qa", "in", ".src.qua">>), V(<<".src.qua">>), V(<<"src.rq", "of", "frame">>),
+                                       V(<<"qa", "in", "src.rq", "of", "me">>)>>)],
    logger |->
      [to    |-> C("to", "fixed", 1, <<V(<<"LOGDIR">>)>>),
       at    |-> C("at", "fixed", 1, <<V(<<"0.25">>)>>),
@@ -90,7 +99,8 @@ Table ==
       for   |-> C("for", "source", 0, <<V(<<"fo", "in", ".src.srv">>)>>)],
    aux |->
      [as    |-> C("as", "fixed", 1, <<V(<<"ctag">>), V(<<"mine">>)>>),
-      via   |-> C("via", "indirect", 0, <<V(<<".nd.aux">>), V(<<"nd.rel", "of", "me">>)>>),
+      via   |-> C("via", "indirect", 0, <<V(<<".nd.aux">>), V(<<"nd.rel", "of", "me">>), V(<<"nd.rel", "of", "frame">>),
+                                          V(<<"nd.rel", "of", "framer">>)>>),
       if    |-> L("if", "needs", 0, <<V(<<".a.b", "==", "1">>), V(<<"not", ".a.b", "and", ".a.c", ">=", "2">>)>>)],
    rear |->
      [as    |-> C("as", "fixed", 1, <<V(<<"mine">>), Bad(<<"ctag">>)>>),
